@@ -260,6 +260,15 @@ class AM:
             require(is_raised(r, ValueError), 'extended slice assignment with a different item count must raise ValueError', got=r, slice=(a, b, c), n=len(vals))
             return
         require(not is_raised(r), 'slice assignment from the Array itself raised', got=r, slice=(a, b, c), how=how)
+        # items are assigned by value: a NaN stays a NaN, but which NaN code is stored is not a value (the source code or the canonical one)
+        if len(self.a.data) >= len(l) * self.w:
+            for i, x in enumerate(l):
+                v = self.dt.dec(x)
+                if isinstance(v, float) and math.isnan(v):
+                    actual = self.a.data[i * self.w:(i + 1) * self.w].bin
+                    av = self.dt.dec(actual)
+                    if isinstance(av, float) and math.isnan(av):
+                        l[i] = actual
         self.items = l
 
     def do_extend_self(self):
